@@ -27,7 +27,8 @@ RULE = ("case = (termtype, byte stream, cut offsets, keys the system's libtermke
 ASSUMPTIONS = ["PARTIAL by nature: Tickit's side is proved for every tokenizer meeting the hypotheses stated next; libtermkey itself is trusted (the property says so)",
                "libtermkey is trusted as the tokenizer (the property says so); the model assumes of it only prefix stability (a key "
                "found in a buffer is found, with the same length, in every extension of the buffer) and that nothing is consumed "
-               "without a key; both are also tested here, because the model is fed the keys of the WHOLE stream",
+               "without a key; both are also tested here, because the model is fed the keys of the WHOLE stream; a reference tokenizer "
+               "written in Coq (UTF-8, CSI, SS3, SGR mouse) is proved to satisfy all the hypotheses (C20_reference_tokenizer)",
                "no inter-byte time-out is forced between chunks (the property's own condition): every scripted gap is below libtermkey's 50 ms wait time; the clock is virtual",
                "libtermkey's buffer holds 256 bytes and no single unfinished sequence fills it",
                "held-button record: button numbers 1..30 (libtermkey reports 1..3 for press/drag)"]
